@@ -84,4 +84,11 @@ func (w circuitBreakerWrapper) Wrap(handler HandlerFunc) (wrapped HandlerFunc)
       ghost at call RecordResult: recorded := recorded + 1
     end
   end
+
+// building one resilience policy from its raw configuration (schema validation + the kind's defaults): external
+// to the pipeline's own checks
+func NewPolicy(rawSpec interface{}) (policy Policy, err error)
+  trusted
+  flag allocates
+  ensures err == nil ==> policy != nil && ifaceVal(policy) != 0
 @*/
